@@ -259,6 +259,9 @@ func sqlID(i int) string { return strings.Repeat(fmt.Sprintf("%02x", 0x10+i), 32
 type sqlGen struct {
 	r    *common.Rand
 	pool []common.JEvent
+	// twoOnly: deletion requests carry two-element e/a tags only (C14: the
+	// tags with extra elements belong to C06)
+	twoOnly bool
 }
 
 func (g *sqlGen) extra(t []string) []string {
@@ -389,7 +392,11 @@ func (g *sqlGen) makePool(np int, functional bool) {
 				t = []string{"p", tgt.PK}
 			}
 			// 2 / 3 / 4 elements
-			switch r.Intn(10) {
+			x := r.Intn(10)
+			if g.twoOnly {
+				x = 9
+			}
+			switch x {
 			case 0, 1, 2:
 				if len(t) >= 2 {
 					t = append(t, "wss://relay.example")
